@@ -23,7 +23,7 @@ from snaxc.dialects import accfg
 State = dict[str, SSAValue]
 
 
-def infer_state_of(state_var: SSAValue) -> State:
+def infer_state_of(state_var: SSAValue, assumed: dict[SSAValue, State] | None = None) -> State:
     """
     Entrance function of the inference pass.
 
@@ -35,28 +35,50 @@ def infer_state_of(state_var: SSAValue) -> State:
         case accfg.SetupOp(in_state=None) as setup_op:
             return {name: val for name, val in setup_op.iter_params()}
         case accfg.SetupOp(in_state=st) as setup_op if st is not None:
-            in_state = infer_state_of(st)
+            in_state = infer_state_of(st, assumed)
             in_state.update(dict(setup_op.iter_params()))
             return in_state
         case scf.IfOp() as if_op:
-            return state_intersection(*infer_states_for_if(if_op, state_var))
+            return state_intersection(*infer_states_for_if(if_op, state_var, assumed))
         case scf.ForOp() as for_op:
-            yield_op = for_op.body.block.last_op
-            assert isinstance(yield_op, scf.YieldOp)
             assert state_var in for_op.results  # this must be true because state_var.owner == for_op
-            return infer_state_of(yield_op.operands[for_op.results.index(state_var)])
+            # the loop may run zero times: only what holds at the loop head on every
+            # iteration (and therefore also before the loop) is known afterwards
+            idx = for_op.results.index(state_var)
+            return _infer_loop_head_state(for_op, idx, assumed)
         case Block() as block:
             match block.parent_op():
                 case scf.ForOp() as for_op:
                     assert isinstance(state_var, BlockArgument)  # must be a block argument for owner to be a block!
-                    return infer_state_of(for_op.iter_args[state_var.index - 1])
+                    if assumed is not None and state_var in assumed:
+                        return dict(assumed[state_var])
+                    return _infer_loop_head_state(for_op, state_var.index - 1, assumed)
                 case _:
                     return {}
         case _:
             raise ValueError(f"Cannot infer state for op {owner.name}")
 
 
-def infer_states_for_if(op: scf.IfOp, state: SSAValue) -> tuple[State, State]:
+def _infer_loop_head_state(for_op: scf.ForOp, idx: int, assumed: dict[SSAValue, State] | None) -> State:
+    """
+    The state at the head of a loop must hold on every iteration: it is the largest
+    subset of the initial state that is still present at the end of the loop body.
+    """
+    yield_op = for_op.body.block.last_op
+    assert isinstance(yield_op, scf.YieldOp)
+    block_arg = for_op.body.block.args[idx + 1]
+    head = infer_state_of(for_op.iter_args[idx], assumed)
+    while True:
+        end = infer_state_of(yield_op.operands[idx], {**(assumed or {}), block_arg: head})
+        new_head = state_intersection(head, end)
+        if new_head == head:
+            return head
+        head = new_head
+
+
+def infer_states_for_if(
+    op: scf.IfOp, state: SSAValue, assumed: dict[SSAValue, State] | None = None
+) -> tuple[State, State]:
     """
     Walk both sides of the if/else block and return the computed
     states for the given state SSA value (`state`)
@@ -71,7 +93,7 @@ def infer_states_for_if(op: scf.IfOp, state: SSAValue) -> tuple[State, State]:
         assert isinstance(yield_op, scf.YieldOp)
         # we know the yield op has the same number of operands as the
         # scf.if has results, so [idx] must be defined
-        states.append(infer_state_of(yield_op.operands[idx]))
+        states.append(infer_state_of(yield_op.operands[idx], assumed))
     assert len(states) == 2
     return states[0], states[1]
 
